@@ -479,13 +479,19 @@ impl PartialEq for LuaUnionType {
                 if a.len() != b.len() {
                     return false;
                 }
-                let mut a_set: HashSet<_> = a.iter().collect();
-                for item in b {
-                    if !a_set.remove(item) {
+                // `LuaType::hash` hashes several variants (Object, Union, Generic, TableGeneric,
+                // TplRef, ...) by `Arc` address, so structurally equal members can hash
+                // differently: match the members with `==` only, never through a hash set.
+                let mut used = vec![false; b.len()];
+                for item in a {
+                    let Some(idx) =
+                        (0..b.len()).find(|&i| !used[i] && &b[i] == item)
+                    else {
                         return false;
-                    }
+                    };
+                    used[idx] = true;
                 }
-                a_set.is_empty()
+                true
             }
             _ => false,
         }
